@@ -253,6 +253,10 @@ class PyMachine:
         self.env[op["dst"]] = c
         return "ok"
 
+    def op_vec_setcomp(self, op):
+        setattr(self.env[op["a"]], "xyz"[op["c"]], self.env[op["v"]])
+        return "ok"
+
     def op_normsq(self, op):
         a = self.env[op["a"]]
         n = a.norm
